@@ -67,6 +67,8 @@ func checkC18(c *Ctx) {
 	c.Check(sa["T#0 == 0"] && sa["out[0] == 26"], "C18-R4", "(*simscreen).drawCell:failure-predicate", p.pos(dc.Pos()),
 		fmt.Sprintf("conditions on the encoder's results: %v (the terminfo screen falls back on zero length and on a SUB first byte; so must its test double)", sortedKeys(sa)))
 	checkDrawCellWidth(c, p, dc, "C18-R3")
+	checkResolvedStyle(c, p, dc, "C18-R3")
+	checkCleanMarkCallers(c, p, "C18-R3")
 	// wide rune in the last column: a ' ' store under x > physw-width
 	okBlank := false
 	eachInstr(dc, func(in ssa.Instruction) {
